@@ -53,11 +53,21 @@ def make_value(desc):
     return [0, '', [], None, False][desc[1]]
 
 
+def make_result(i, name):
+    """what the stub's method returns (case['ret']): the helper must hand back exactly this object"""
+    return [Sentinel('result of ' + name), ['only'], ('only',), [['nested']], None, 0, '', [], False, (),
+            {}, [None], (0,)][i]
+
+
+N_RESULTS = 13
+
+
 class Stub:
     """Stands for the server / client the namespace is registered with: records every method call."""
 
-    def __init__(self, real_cls):
+    def __init__(self, real_cls, ret=0):
         self._real = real_cls
+        self._ret = ret
         self.calls = []
         self.results = []
 
@@ -65,7 +75,7 @@ class Stub:
         if name.startswith('__'):
             raise AttributeError(name)
         real = getattr(self._real, name, None)
-        result = Sentinel('result of ' + name)
+        result = make_result(self._ret, name)
 
         def rec(*args, **kwargs):
             self.calls.append((name, args, kwargs))
@@ -103,11 +113,12 @@ def execute(case, loop):
     cls = getattr(s, cname)
     peer_cls = getattr(s, peer_cls_name)
     obj = cls(case['reg'])
-    stub = Stub(peer_cls)
+    stub = Stub(peer_cls, case.get('ret', 0))
     getattr(obj, setter)(stub)
     pos, kw, given = build_call(case)
     obs = {'given': given, 'obj': obj, 'stub': stub, 'exc': None, 'result_ok': None, 'bound': None,
-           'method': None, 'ncalls': 0}
+           'method': None, 'ncalls': 0, 'ns_before': obj.namespace, 'ns_after': None, 'second': None,
+           'returned': None, 'stub_returned': None}
     try:
         fn = getattr(obj, helper)
         r = fn(*pos, **kw)
@@ -118,12 +129,17 @@ def execute(case, loop):
     except Exception as ex:      # noqa
         obs['exc'] = '%s: %s' % (type(ex).__name__, str(ex)[:120])
         obs['ncalls'] = len(stub.calls)
+        obs['ns_after'] = getattr(obj, 'namespace', '<no attribute>')
         return obs
     obs['ncalls'] = len(stub.calls)
-    if len(stub.calls) == 1:
+    obs['ns_after'] = getattr(obj, 'namespace', '<no attribute>')
+    if case.get('then'):
+        obs['second'] = second_call(case, obj, stub, peer_cls, loop)
+    if obs['ncalls'] == 1:
         name, args, kwargs = stub.calls[0]
         obs['method'] = name
         obs['result_ok'] = r is stub.results[0]
+        obs['returned'], obs['stub_returned'] = repr(r)[:80], repr(stub.results[0])[:80]
         real_t = getattr(peer_cls, name, None)
         if real_t is None:
             obs['bound'] = None
@@ -135,6 +151,41 @@ def execute(case, loop):
             except TypeError as ex:
                 obs['exc'] = 'call does not fit %s.%s: %s' % (peer_cls_name, name, ex)
     return obs
+
+
+def second_call(case, obj, stub, peer_cls, loop):
+    """the follow-up call of a two-call sequence on the SAME namespace object: required arguments only,
+    namespace omitted"""
+    h2 = case['then']
+    n0 = len(stub.calls)
+    out = {'helper': h2, 'exc': None, 'bound': None, 'method': None, 'ncalls': 0, 'ns_after': None}
+    try:
+        fn = getattr(obj, h2)
+        req = [p for p, d in sig_params(getattr(type(obj), h2))[0] if not d]
+        r = fn(**{p: Sentinel('2nd ' + p) for p in req})
+        if inspect.iscoroutine(r):
+            r = loop.run_until_complete(r)
+        if inspect.iscoroutine(r):
+            r.close()
+    except Exception as ex:      # noqa
+        out['exc'] = '%s: %s' % (type(ex).__name__, str(ex)[:120])
+        return out
+    out['ncalls'] = len(stub.calls) - n0
+    out['ns_after'] = getattr(obj, 'namespace', '<no attribute>')
+    if out['ncalls'] == 1:
+        name, args, kwargs = stub.calls[-1]
+        out['method'] = name
+        real_t = getattr(peer_cls, name, None)
+        try:
+            ba = inspect.signature(real_t).bind(stub, *args, **kwargs)
+            out['bound'] = {k: v for k, v in ba.arguments.items() if k != 'self'}
+        except Exception as ex:      # noqa
+            out['exc'] = 'second call does not fit the target: %s' % ex
+    return out
+
+
+def same_ns(a, b):
+    return type(a) is type(b) and a == b
 
 
 def oracle(case, obs):
@@ -151,7 +202,24 @@ def oracle(case, obs):
         bad.append('calls %s.%s instead of the same-named method' % (_peer_attr, obs['method']))
         return bad
     if not obs['result_ok']:
-        bad.append('the result of the underlying method is not passed back unchanged')
+        bad.append('the result of the underlying method is not passed back unchanged: it returned %s, the '
+                   'helper returned %s' % (obs['stub_returned'], obs['returned']))
+    if not same_ns(obs['ns_after'], obs['ns_before']):
+        bad.append('the call changed the namespace the object is registered for: .namespace was %r, is %r'
+                   % (obs['ns_before'], obs['ns_after']))
+    sec = obs.get('second')
+    if sec is not None:
+        if sec['exc']:
+            bad.append('follow-up call %s() raised: %s' % (sec['helper'], sec['exc']))
+        elif sec['ncalls'] != 1 or sec['method'] != sec['helper']:
+            bad.append('follow-up call %s() made %d calls (%r)' % (sec['helper'], sec['ncalls'], sec['method']))
+        else:
+            got = sec['bound'].get('namespace', '<absent>')
+            if not same_ns(got, case['reg'] or '/'):
+                bad.append('after a call with an explicit namespace, %s() with the namespace omitted goes to %r '
+                           'instead of the registered %r' % (sec['helper'], got, case['reg'] or '/'))
+            if not same_ns(sec['ns_after'], obs['ns_before']):
+                bad.append('.namespace changed to %r after the follow-up call' % (sec['ns_after'],))
     tsig = inspect.signature(getattr(getattr(s, peer_cls_name), helper))
     tparams = [p for p in tsig.parameters if p != 'self']
     hparams = [p for p in inspect.signature(getattr(getattr(s, cname), helper)).parameters if p != 'self']
@@ -252,10 +320,12 @@ def model_call(ans):
 
 def describe(case):
     return {'cls': case['cls'], 'helper': case['helper'], 'reg': case['reg'], 'npos': case['npos'],
-            'given': case['given'], 'order': case.get('order', 'helper'),
+            'given': case['given'], 'order': case.get('order', 'helper'), 'ret': case.get('ret', 0),
+            'then': case.get('then'), 'underlying_method_returns': repr(make_result(case.get('ret', 0), case['helper'])),
             'call': '%s(%r).%s(%s)' % (case['cls'], case['reg'], case['helper'], ', '.join(
                 [repr(make_value(d)) for _p, d in case['given'][:case['npos']]] +
-                ['%s=%r' % (p, make_value(d)) for p, d in case['given'][case['npos']:]]))}
+                ['%s=%r' % (p, make_value(d)) for p, d in case['given'][case['npos']:]])) + (
+                '; then .%s(<required arguments>)' % case['then'] if case.get('then') else '')}
 
 
 def cases_for(cname, helper, rng, counter):
@@ -289,6 +359,7 @@ def cases_for(cname, helper, rng, counter):
                     counter[0] += 1
                     yield {'cls': cname, 'helper': helper,
                            'reg': REG_NAMESPACES[counter[0] % len(REG_NAMESPACES)],
+                           'ret': (counter[0] // 3) % N_RESULTS,
                            'given': given, 'npos': npos}
 
 
@@ -329,6 +400,35 @@ def documented_order_cases(cname, helper, counter):
                 yield {'cls': cname, 'helper': helper, 'order': label,
                        'reg': REG_NAMESPACES[counter[0] % len(REG_NAMESPACES)],
                        'given': [[p, d] for p, d in zip(names, pat)], 'npos': k}
+
+
+def result_and_sequence_cases(cname, helper, counter):
+    """(a) every kind of return value of the underlying method (one-element list / tuple, nested, None,
+    falsy, …) for every helper; (b) two-call sequences on ONE namespace object: this helper with an
+    explicit namespace override, then another helper with the namespace omitted."""
+    s = sio_mod()
+    fn = getattr(getattr(s, cname), helper, None)
+    if fn is None:
+        return
+    params = sig_params(fn)[0]
+    required = [p for p, d in params if not d]
+    base = [[p, ['s', p]] for p in required]
+    for ret in range(N_RESULTS):
+        counter[0] += 1
+        yield {'cls': cname, 'helper': helper, 'reg': REG_NAMESPACES[counter[0] % len(REG_NAMESPACES)],
+               'ret': ret, 'given': base, 'npos': 0, 'order': 'result'}
+    if 'namespace' not in [p for p, _ in params]:
+        return
+    helpers = CLASSES[cname][0]
+    with_ns = [h for h in helpers if getattr(getattr(s, cname), h, None) is not None and
+               'namespace' in [p for p, _ in sig_params(getattr(getattr(s, cname), h))[0]]]
+    seconds = sorted(set([helper] + with_ns[:2] + with_ns[-2:]), key=with_ns.index)
+    for h2 in seconds:
+        for npos in (0, len(required)):
+            counter[0] += 1
+            yield {'cls': cname, 'helper': helper, 'reg': REG_NAMESPACES[counter[0] % len(REG_NAMESPACES)],
+                   'ret': counter[0] % N_RESULTS, 'given': base + [['namespace', ['s', 'namespace']]],
+                   'npos': npos, 'order': 'sequence', 'then': h2}
 
 
 def validate_rows(ctx, rows):
@@ -409,7 +509,8 @@ def run(ctx):
             for helper in helpers:
                 row = byname.get((cname, helper))
                 cases = list(cases_for(cname, helper, ctx.rng, counter)) + \
-                    list(documented_order_cases(cname, helper, counter))
+                    list(documented_order_cases(cname, helper, counter)) + \
+                    list(result_and_sequence_cases(cname, helper, counter))
                 obss, ops, toks = [], [], []
                 for case in cases:
                     obs = execute(case, loop)
@@ -483,7 +584,7 @@ def run(ctx):
         seen, kept = set(), []
         for v in ctx.violations:
             c = v['replay'].get('case', {}) if isinstance(v['replay'], dict) else {}
-            key = (v['kind'], v['no_input'], c.get('cls'), c.get('helper'))
+            key = (v['kind'], v['no_input'], c.get('cls'), c.get('helper'), c.get('order') == 'sequence')
             if key not in seen:
                 seen.add(key)
                 kept.append(v)
@@ -496,7 +597,10 @@ def run(ctx):
         'rule': 'every helper of the four classes x every subset of its optional parameters given explicitly x '
                 '{all sentinels, five rotations of the falsy values 0, "", [], None, False, one random mix} x '
                 '{all by keyword, longest positional prefix, random split}; plus positional calls of every length written '
-                'in the parameter order of the target method and of the twin class; registered namespace rotates over '
+                'in the parameter order of the target method and of the twin class; the stub returns each of %d kinds of '
+                'result (one-element list/tuple, nested, None, falsy …) for every helper; two-call sequences on one object '
+                '(explicit namespace, then a helper with the namespace omitted), .namespace compared after every call; '
+                'registered namespace rotates over ' % N_RESULTS + 
                 '%r. non-trivial = at least one explicit falsy argument' % (REG_NAMESPACES,),
         'samples': samples, 'traces_validated_against_impl': n_exec,
         'oracle_failures': stats['oracle_fail'], 'model_disagreements': stats['model_fail'],
